@@ -37,6 +37,12 @@ func TestWriteRegress(t *testing.T) {
 			{Op: OpSubscribe, Sub: 0, Conn: 1, Key: 1, Split: &Split{Point: PtInit, Nested: []Step{{Op: OpDone, Period: 0}}}}}},
 		"C13/variant-init-race-shutdown": {Steps: []Step{
 			{Op: OpSubscribe, Sub: 0, Conn: 1, Key: 0}, {Op: OpSubscribe, Sub: 1, Conn: 2, Key: 3, Split: &Split{Point: PtInit, Nested: []Step{{Op: OpShutdown}}}}}},
+		"C12/heartbeat-parked-while-removed": {Steps: []Step{
+			{Op: OpSubscribe, Sub: 0, Conn: 1, Key: 0, HB: true}, {Op: OpSubscribe, Sub: 1, Conn: 2, Key: 0, Filter: FIn0, HB: true},
+			{Op: OpHeartbeat, Period: 0, Split: &Split{Point: PtHeartbeat, Target: 1, Nested: []Step{{Op: OpUnsubscribe, Sub: 1}, {Op: OpEvent, Period: 0, N: 1, K: 0}}}},
+			{Op: OpHeartbeat, Period: 0, Split: &Split{Point: PtWHeartbeat, Target: 0, Nested: []Step{{Op: OpUnsubscribe, Sub: 0}}}},
+			{Op: OpSubscribe, Sub: 2, Conn: 3, Key: 0, HB: true, HBFail: true},
+			{Op: OpHeartbeat, Period: 0, Split: &Split{Point: PtHeartbeat, Target: 2, Nested: []Step{{Op: OpRemoveClient, Conn: 3}}}}}},
 		"C12/plain-two-subscribers-filters": {Steps: []Step{
 			{Op: OpSubscribe, Sub: 0, Conn: 1, Key: 0, HB: true}, {Op: OpSubscribe, Sub: 1, Conn: 2, Key: 0, Filter: FIn0, Shape: 1},
 			{Op: OpSubscribe, Sub: 2, Conn: 1, Key: 2, Filter: FNot0, Shape: 2},
